@@ -735,7 +735,8 @@ func (w *crashWorld) makeMsg(typ string, r *rand.Rand) msg.Message {
 		if r.Intn(2) == 0 {
 			ra = &net.UDPAddr{Port: r.Intn(70000)}
 		}
-		return &msg.UDPPacket{Content: crashStr(r), LocalAddr: la, RemoteAddr: ra}
+		m, _ := udpRawPacket(crashStr(r), la, ra) // eng_udp.go: does not name the type of the Content field
+		return m
 	case "NatHoleVisitor":
 		return &msg.NatHoleVisitor{TransactionID: crashStr(r), ProxyName: "p" + strconv.Itoa(r.Intn(6)), PreCheck: r.Intn(3) != 0,
 			Protocol: []string{"", "quic", "kcp", crashStr(r)}[r.Intn(4)], SignKey: crashKeyFor(r, ts), Timestamp: ts,
